@@ -569,16 +569,20 @@ impl<'a, C: Crypto + 'a> CaseInitiator<'a, C> {
         // peer CATs are what we just committed to the `Session`.
         #[cfg(feature = "case-resumption")]
         {
+            // (unless the fabric - and with it the reserved session - was removed
+            // while the last message was being acknowledged)
             exchange.with_state(|state| {
-                state.resumption.insert_or_update(ResumableSession {
-                    fab_idx,
-                    peer_nodeid: peer_node_id,
-                    peer_cat_ids: peer_catids,
-                    resumption_id: peer_resumption_id,
-                    shared_secret: crate::crypto::CanonPkcSharedSecret::new_from_ref(
-                        initiator.casep.shared_secret(),
-                    ),
-                });
+                if session.is_in_table(state) {
+                    state.resumption.insert_or_update(ResumableSession {
+                        fab_idx,
+                        peer_nodeid: peer_node_id,
+                        peer_cat_ids: peer_catids,
+                        resumption_id: peer_resumption_id,
+                        shared_secret: crate::crypto::CanonPkcSharedSecret::new_from_ref(
+                            initiator.casep.shared_secret(),
+                        ),
+                    });
+                }
                 Ok::<_, Error>(())
             })?;
             exchange.matter().transport().notify_resumption_dirty();
@@ -736,14 +740,18 @@ impl<'a, C: Crypto + 'a> CaseInitiator<'a, C> {
         // `SharedSecret` and peer identity are unchanged; only
         // `resumption_id` rotates. `insert_or_update` refreshes the
         // existing record for this peer and moves it to the tail (MRU).
+        // (unless the fabric - and with it the reserved session - was removed
+        // while SigmaFinished was being acknowledged)
         exchange.with_state(|state| {
-            state.resumption.insert_or_update(ResumableSession {
-                fab_idx: record.fab_idx,
-                peer_nodeid: record.peer_nodeid,
-                peer_cat_ids: record.peer_cat_ids,
-                resumption_id: new_rid,
-                shared_secret: record.shared_secret.clone(),
-            });
+            if session.is_in_table(state) {
+                state.resumption.insert_or_update(ResumableSession {
+                    fab_idx: record.fab_idx,
+                    peer_nodeid: record.peer_nodeid,
+                    peer_cat_ids: record.peer_cat_ids,
+                    resumption_id: new_rid,
+                    shared_secret: record.shared_secret.clone(),
+                });
+            }
             Ok::<_, Error>(())
         })?;
         exchange.matter().transport().notify_resumption_dirty();
